@@ -15,6 +15,8 @@ mod p03;
 mod p04;
 mod p05;
 mod p06;
+mod p07;
+mod bcmodel;
 mod p09;
 mod p10;
 mod refval;
@@ -30,6 +32,7 @@ fn make(id: &str, tier: Tier) -> Option<Box<dyn Property>> {
         "C05" => Box::new(p05::P05::new(tier)),
         "C06" => Box::new(p06::P06::new(tier)),
         "C10" => Box::new(p10::P10::new(tier)),
+        "C07" => Box::new(p07::P07::new(tier)),
         "C09" => Box::new(p09::P09::new(tier)),
         _ => return None,
     })
